@@ -248,6 +248,7 @@ package keeper
 //@ ensures [without_quorum_nothing_is_decided_before_the_voting_period_ends] err == nil && old(dispute.Votes[id].VoteEnd) >= blocktime(ctx) ==> called(UpdateDispute) && arg(UpdateDispute, quorum)
 //@ ensures [quorum_is_51_percent_of_the_group_weights] called(UpdateDispute) ==> (arg(UpdateDispute, quorum) <==> teampart(id) + retsum(Ratio, 0) >= 51000000)
 //@ ensures [a_quorum_result_closes_the_dispute_for_execution] err == nil && called(UpdateDispute) && arg(UpdateDispute, quorum) ==> dispute.Disputes[id].DisputeStatus == types.Resolved && !dispute.Disputes[id].Open && dispute.Disputes[id].PendingExecution
+//@ ensures [no_dispute_appears_or_disappears] forall j int :: has(dispute.Disputes, j) <==> old(has(dispute.Disputes, j))
 //@ ensures [only_this_round_is_written] forall j int :: j != id ==> dispute.Votes[j] == old(dispute.Votes[j]) && dispute.Disputes[j] == old(dispute.Disputes[j]) && (has(dispute.Votes, j) <==> old(has(dispute.Votes, j))) && (has(dispute.Disputes, j) <==> old(has(dispute.Disputes, j)))
 
 // ---- casting a vote (C12) ----
